@@ -683,5 +683,48 @@ theorem rirm_monitor_accepts_model (j : JVal) : rirmMonitor j (modelIrm j) = non
   unfold rirmMonitor modelIrm
   cases h : decodeInputRequests j <;> simp [h]
 
+/-! ## the `CompleteReference` codec -/
+
+def modelRefRt (r : CRef) : RefRtObs :=
+  match encodeRef r with
+  | .error _ => .refused
+  | .ok v => .written v (match decodeRef v with | .ok r' => some r' | .error _ => none)
+
+def modelRefDec (v : JVal) : RefDecObs :=
+  match decodeRef v with
+  | .error _ => .rejected
+  | .ok r => .accepted r (match encodeRef r with | .ok w => some w | .error _ => none)
+
+theorem encodeRef_ok_of_check (r : CRef) (h : refCheck r = .ok ()) : ∃ v, encodeRef r = .ok v := by
+  simp [encodeRef, h]
+
+theorem refRt_monitor_accepts_model (r : CRef) : refRtMonitor r (modelRefRt r) = none := by
+  unfold modelRefRt
+  cases he : encodeRef r with
+  | error e =>
+    have : refCheck r ≠ .ok () := by
+      intro hc; obtain ⟨v, hv⟩ := encodeRef_ok_of_check r hc; rw [hv] at he; cases he
+    simp [refRtMonitor, this]
+  | ok v =>
+    have hc : refCheck r = .ok () := by
+      unfold encodeRef at he
+      cases hc : refCheck r with
+      | error e => simp [hc] at he
+      | ok _ => rfl
+    simp [refRtMonitor, hc, ref_roundtrip r v he]
+
+theorem refDec_monitor_accepts_model (v : JVal) : refDecMonitor (modelRefDec v) = none := by
+  unfold modelRefDec
+  cases hd : decodeRef v with
+  | error e => rfl
+  | ok r =>
+    obtain ⟨w, hw, _⟩ := ref_decode_validates v r hd
+    have hc : refCheck r = .ok () := by
+      unfold encodeRef at hw
+      cases hc : refCheck r with
+      | error e => simp [hc] at hw
+      | ok _ => rfl
+    simp [refDecMonitor, hc, hw, sameJ_refl]
+
 end Mon
 end Wire
